@@ -234,7 +234,8 @@ def _check_case(case):
             out.fail('R5:group-%s-with-%s-errors' % (ak9[0], 'no' if not es_ else 'some'),
                      'group #%d: AK9 %r, errors %s' % (gi, ak9[:4], [(e['level'], e['seg_id'], e['pos'], e['code']) for e in es_[:5]]))
         declared = sg['ge'][0] if sg['ge'] else None
-        want9 = [declared, str(len(sg['sets'])), str(accepted)]
+        # AK902 is the declared number (a count spelled 007 is the number 7)
+        want9 = [str(int(declared)) if _isint(declared) else declared, str(len(sg['sets'])), str(accepted)]
         if declared is not None and ak9[1:4] != want9 and _isint(declared):
             which = [n_ for n_, (x, y) in zip(('declared', 'received', 'accepted'), zip(ak9[1:4], want9)) if x != y]
             out.fail('R5:group-totals:%s' % '+'.join(which), 'group #%d: AK902-04 %r, independent count %r' % (gi, ak9[1:4], want9))
